@@ -2,12 +2,16 @@ package gwsim
 
 import (
 	"errors"
+	"io"
 	"net"
+	"os"
 	"strings"
 	"sync"
+	"testing/synctest"
+	"time"
 )
 
-// pipeListener is the gateway's net.Listener: every simulated connection is one net.Pipe whose
+// pipeListener is the gateway's net.Listener: every simulated connection is one in-memory pipe whose
 // server end is handed out by Accept.
 type pipeListener struct {
 	ch     chan net.Conn
@@ -42,7 +46,7 @@ func (l *pipeListener) Addr() net.Addr { return pipeAddr{} }
 
 // connect creates a connection and returns the client end.
 func (l *pipeListener) connect() (net.Conn, error) {
-	c, s := net.Pipe()
+	c, s := bufPipe()
 	select {
 	case l.ch <- s:
 		return c, nil
@@ -54,6 +58,7 @@ func (l *pipeListener) connect() (net.Conn, error) {
 }
 
 // abortConn is a client end that hangs up at its k-th write (client vanishing inside the handshake).
+// Write must be called on the goroutine that drives the run (it waits for quiescence).
 type abortConn struct {
 	net.Conn
 	left  int
@@ -63,6 +68,7 @@ type abortConn struct {
 func (a *abortConn) Write(p []byte) (int, error) {
 	if a.left <= 0 {
 		*a.fired = true
+		synctest.Wait() // let the gateway digest what was sent so far, then vanish
 		a.Conn.Close()
 		return 0, errors.New("gwsim: client aborted")
 	}
@@ -92,3 +98,118 @@ func (c *captureLog) take() []string {
 	c.lines = nil
 	return out
 }
+
+// bufPipe is net.Pipe with socket buffers: a full-duplex in-memory connection whose writes never
+// block (like a TCP socket with room in its send buffer).  The strictly synchronous net.Pipe
+// deadlocks a TLS 1.3 session resumption (the server sends its session tickets while the client sends
+// its Finished message - both block in Write), which no real network does.  All blocking happens on
+// channels and timers created inside the synctest bubble.
+func bufPipe() (net.Conn, net.Conn) {
+	a2b, b2a := newHalf(), newHalf()
+	return &bufConn{rd: b2a, wr: a2b}, &bufConn{rd: a2b, wr: b2a}
+}
+
+type half struct {
+	mu       sync.Mutex
+	buf      []byte
+	wclosed  bool // the writing end hung up: the reader drains, then sees EOF
+	rclosed  bool // the reading end hung up: the writer gets an error
+	deadline time.Time
+	wake     chan struct{}
+}
+
+func newHalf() *half { return &half{wake: make(chan struct{}, 1)} }
+
+func (h *half) poke() {
+	select {
+	case h.wake <- struct{}{}:
+	default:
+	}
+}
+
+type bufConn struct {
+	rd, wr *half
+}
+
+func (c *bufConn) Read(p []byte) (int, error) {
+	h := c.rd
+	for {
+		h.mu.Lock()
+		switch {
+		case h.rclosed:
+			h.mu.Unlock()
+			return 0, io.ErrClosedPipe
+		case len(h.buf) > 0:
+			n := copy(p, h.buf)
+			h.buf = h.buf[n:]
+			if len(h.buf) > 0 {
+				h.poke()
+			}
+			h.mu.Unlock()
+			return n, nil
+		case h.wclosed:
+			h.mu.Unlock()
+			return 0, io.EOF
+		}
+		dl := h.deadline
+		h.mu.Unlock()
+		if len(p) == 0 {
+			return 0, nil
+		}
+		if dl.IsZero() {
+			<-h.wake
+			continue
+		}
+		d := time.Until(dl)
+		if d <= 0 {
+			return 0, os.ErrDeadlineExceeded
+		}
+		t := time.NewTimer(d)
+		select {
+		case <-h.wake:
+			t.Stop()
+		case <-t.C:
+		}
+	}
+}
+
+func (c *bufConn) Write(p []byte) (int, error) {
+	h := c.wr
+	h.mu.Lock()
+	if h.wclosed || h.rclosed {
+		h.mu.Unlock()
+		return 0, io.ErrClosedPipe
+	}
+	h.buf = append(h.buf, p...)
+	h.poke()
+	h.mu.Unlock()
+	return len(p), nil
+}
+
+func (c *bufConn) Close() error {
+	c.rd.mu.Lock()
+	c.rd.rclosed = true
+	c.rd.buf = nil
+	c.rd.poke()
+	c.rd.mu.Unlock()
+	c.wr.mu.Lock()
+	c.wr.wclosed = true
+	c.wr.poke()
+	c.wr.mu.Unlock()
+	return nil
+}
+
+func (c *bufConn) LocalAddr() net.Addr  { return pipeAddr{} }
+func (c *bufConn) RemoteAddr() net.Addr { return pipeAddr{} }
+
+func (c *bufConn) SetDeadline(t time.Time) error { return c.SetReadDeadline(t) }
+
+func (c *bufConn) SetReadDeadline(t time.Time) error {
+	c.rd.mu.Lock()
+	c.rd.deadline = t
+	c.rd.poke()
+	c.rd.mu.Unlock()
+	return nil
+}
+
+func (c *bufConn) SetWriteDeadline(time.Time) error { return nil } // writes never block
